@@ -51,6 +51,13 @@ theorem c02_hdr_bounds (r : Header) (buf : Bytes) (h : Header) (n : Nat)
     obtain ⟨h1, h2, h3, h4, _⟩ := hdrUnmarshalL_bounds r buf h' n' locs hl
     exact ⟨h1, h2, locs, rfl, h3, h4⟩
 
+/-- beyond the property's wording: the extension values lie in the input in element order and do
+    not overlap (each ends before the next starts). -/
+theorem c02_ext_disjoint (r : Header) (buf : Bytes) (h : Header) (n : Nat) (locs : List Nat)
+    (hok : hdrUnmarshalL r buf = .ok (h, n, locs)) :
+    (h.exts.zip locs).Pairwise (fun x y => x.2 + x.1.payload.length ≤ y.2) :=
+  hdrUnmarshalL_sorted r buf h n locs hok
+
 /-- Packet.Unmarshal, when it succeeds: header length + payload length + padding size = input
     length, the payload is exactly the input bytes after the header, and the header part is what
     Header.Unmarshal reports (so `c02_hdr_bounds` applies to the extension values). -/
@@ -102,6 +109,21 @@ theorem c02_reuse_exact (r : Header) (buf : Bytes) :
   | err e => rfl
   | panic => rfl
   | ok x => simp [Res.map, fstH, withProfile]
+
+/-- Recorded interpretation (DESIGN §6 C02 / §7): the stale profile is treated as don't-care because
+    neither a read accessor nor Marshal / MarshalSize looks at it while X = 0.  It is NOT invisible
+    to SetExtension: a first value of 256 bytes or more is validated against whatever profile the
+    receiver still holds.  The same 12 bytes decoded into a fresh receiver and into one that held a
+    one-byte packet before give headers on which `SetExtension(0, 256 bytes)` succeeds resp. fails. -/
+theorem c02_stale_profile_witness :
+    ∃ (buf : Bytes) (r : Header) (h1 h2 : Header) (n : Nat),
+      hdrUnmarshal {} buf = .ok (h1, n) ∧ hdrUnmarshal r buf = .ok (h2, n) ∧
+      C01.canonH h1 = C01.canonH h2 ∧
+      (setExtension h1 0 (List.replicate 256 0)).1 = none ∧
+      (setExtension h2 0 (List.replicate 256 0)).1 = some .idRange :=
+  ⟨[0x80, 0, 0, 0, 0, 0, 0, 0, 0, 0, 0, 0], { extProfile := 0xBEDE },
+   { version := 2 }, { version := 2, extProfile := 0xBEDE }, 12,
+   by decide, by decide, by decide, by decide +kernel, by decide +kernel⟩
 
 /-! ### non-vacuity: concrete inputs on which the theorems say something -/
 
